@@ -20,7 +20,7 @@ func init() {
 			"(2) the two members of each pair have equal skeleton normal forms (recodings, loops with normalised bounds, doublings between digit uses, guard/operation/lookup of every digit use); " +
 			"(3) Horner shape per algorithm, add/sub polarity incl. the mirrored d0IsNeg branches, recoding width <-> table size, Pippenger bucket count, lookup-table constructors, entry-point facts; " +
 			"(4) every Sub* mixed-addition formula is the sign-dual of its Add* twin; (5) constant-time lookups scan every table entry exactly once; " +
-			"(6) the four ABGLSV-Pornin prologues and the two passes of FindShortVector are clones modulo type renaming. " +
+			"(6) [withdrawn: the syntactic clone comparison of the ABGLSV-Pornin prologues and the two lattice passes fired on behaviour-preserving edits of one clone; each is now specified on its own under C16]. " +
 			"What is decided is skeleton/duality/sibling structure — NOT that the formulas, tables or assembly compute the group law."
 		run.Assumptions = []string{
 			"callees are classified by receiver type and declared method name (Identity, Double/double, MulByPow2/mulByPow2, Add*/Sub*, Set*/set*, Lookup, ToRadix16/NonAdjacentForm/ToRadix2w); the classification table is frozen in esib/skeleton.go and an unclassified method of a point type inside a routine fails the check",
@@ -59,7 +59,6 @@ func init() {
 		run.Rule("SIB-skel"+esib.SufEntry, "entry-point facts", 28*k)
 		run.Rule("SIB-duality", "Sub* formulas are the sign-dual of their Add* twins", 9*k)
 		run.Rule("SIB-scan", "constant-time lookups scan every entry exactly once", 5*k)
-		run.Rule("SIB-clone", "Pornin prologues and FindShortVector passes are clones", 12*k)
 
 		convRule := run.Rule("SIB-conv-source", "every representation conversion set*/Set* between different point models computes all output coordinates from its source operand and never reads back a receiver coordinate (sibling uniformity of curve/models.go)", 10*k)
 		pairRule := run.Rule("DT-pairing", "the expanded Pippenger fallback keeps static scalars paired with the points of the static (expanded) operands and dynamic with dynamic", 3*k)
@@ -86,7 +85,6 @@ func init() {
 			sk := esib.CheckSkeletons(run, p, d.Pairs, "SIB-skel")
 			du := esib.CheckDuality(run, p, "SIB-duality")
 			sc := esib.CheckMaskedScan(run, p, "SIB-scan")
-			cl := esib.CheckClones(run, p, "SIB-clone")
 			nconv := checkConversionsReadSource(p, convRule)
 			ecfg := &edt.Config{P: p, Mod: modFor(p)}
 			for _, s := range c03PairingSpecs(p.Obj("curve", "errVectorNotSupported") == nil) {
@@ -111,11 +109,6 @@ func init() {
 					}
 				}
 				run.Sample(map[string]any{"config": id, "masked_scans": sc})
-				for _, x := range cl {
-					if x.Group == "lattice-pass" || x.Provenance > 0 && len(x.Renaming) > 0 {
-						run.Sample(map[string]any{"config": id, "clone": x})
-					}
-				}
 				run.Extra["dispatch_switches"] = d.Switches
 				run.Extra["routines_with_skeleton"] = len(sk.Routines)
 			}
